@@ -24,6 +24,7 @@ import (
 	"github.com/hashicorp/memberlist"
 	"github.com/vx-labs/commitlog/stream"
 	"github.com/vx-labs/mqtt-protocol/packet"
+	"github.com/vx-labs/wasp/v4/rpc"
 	"github.com/vx-labs/wasp/v4/wasp"
 	"github.com/vx-labs/wasp/v4/wasp/ack"
 	"github.com/vx-labs/wasp/v4/wasp/audit"
@@ -32,9 +33,10 @@ import (
 	"github.com/vx-labs/wasp/v4/wasp/messages"
 	"github.com/vx-labs/wasp/v4/wasp/transport"
 	"go.uber.org/zap"
-	"github.com/vx-labs/wasp/v4/rpc"
 	"google.golang.org/grpc"
+	"google.golang.org/grpc/codes"
 	"google.golang.org/grpc/credentials"
+	"google.golang.org/grpc/status"
 	"google.golang.org/grpc/test/bufconn"
 )
 
@@ -74,6 +76,7 @@ func (l *logProxy) Append(p *packet.Publish) error {
 	l.w.mu.Lock()
 	l.w.LogEvents = append(l.w.LogEvents, LogEvent{Seq: l.w.nextSeq(), Node: l.node.ID, Topic: string(p.Topic), Payload: string(p.Payload), OK: err == nil})
 	l.w.mu.Unlock()
+	l.w.deviationPoint("log-append")
 	return err
 }
 func (l *logProxy) Get(offset uint64) (*packet.Publish, error) { return l.inner.Get(offset) }
@@ -254,6 +257,7 @@ func (t *harnessTransport) Call(id uint64, f func(*grpc.ClientConn) error) error
 	w.mu.Lock()
 	w.RPCEvents = append(w.RPCEvents, RPCEvent{Seq: w.nextSeq(), From: t.from.ID, To: id, OK: err == nil})
 	w.mu.Unlock()
+	w.deviationPoint("rpc")
 	return err
 }
 
@@ -275,12 +279,12 @@ type Node struct {
 	Members wasp.NodeMemberManager
 	Dist    *wasp.PublishDistributor
 
-	lis    *bufconn.Listener
-	srv    *grpc.Server
+	lis     *bufconn.Listener
+	srv     *grpc.Server
 	conns   map[uint64]*grpc.ClientConn
 	refused map[uint64]*grpc.ClientConn
 	dialMu  chanMutex
-	wg     sync.WaitGroup
+	wg      sync.WaitGroup
 
 	Consumed   []uint64
 	AckInserts []AckInsert
@@ -318,7 +322,23 @@ func (n *Node) dial(target *Node) *grpc.ClientConn {
 	// only the byte transport is replaced by the in-memory listener of the target node
 	opts := append(rpc.GRPCClientOptions("", "", "", true), grpc.WithContextDialer(func(ctx context.Context, _ string) (net.Conn, error) {
 		return target.lis.Dial()
-	}))
+	}),
+		// innermost interceptor (after the production chain): the place where an answer can get lost on the wire
+		grpc.WithChainUnaryInterceptor(func(ctx context.Context, method string, req, reply interface{}, cc *grpc.ClientConn, invoker grpc.UnaryInvoker, co ...grpc.CallOption) error {
+			err := invoker(ctx, method, req, reply, cc, co...)
+			w := n.w
+			w.mu.Lock()
+			lose := err == nil && w.loseResponse[[2]uint64{n.ID, target.ID}]
+			if lose {
+				delete(w.loseResponse, [2]uint64{n.ID, target.ID})
+			}
+			w.mu.Unlock()
+			if lose {
+				// the peer did what was asked, the connection broke before its answer came back
+				return status.Error(codes.Unavailable, "injected: transport is closing")
+			}
+			return err
+		}))
 	c, err := grpc.Dial("bufnet", opts...)
 	if err != nil {
 		panic(err)
@@ -388,11 +408,15 @@ type World struct {
 	GossipAuto bool
 	// GossipHold, when set, keeps the drained messages for which it returns true (by drain index) in
 	// Pending until DeliverAll.
+	loseResponse map[[2]uint64]bool
+	dev          *Deviation
+	devCount     map[string]int
+	devFired     bool
 	// Seam, when set, is called (on the broker's goroutine) after each session-record call of a connection manager
 	Seam func(n *Node, op, arg string)
 	// GossipLazy: nothing is taken out of the nodes' transmit queues until it is cleared again (the gossip layer drains
 	// them periodically, several operations may queue up in between)
-	GossipLazy bool
+	GossipLazy  bool
 	GossipHold  func(idx int) bool
 	gossipIndex int
 
@@ -517,6 +541,56 @@ func (w *World) newNode(id uint64, o NodeOpts) *Node {
 	n.Manager = wasp.NewConnectionManager(w.Auth, n.Local, &seamState{State: n.DState, w: w, node: n}, n.Writer, pp, n.Acks)
 	n.goRun(n.Manager.Run)
 	return n
+}
+
+// Deviation: one departure from the default answer of the environment. The Index-th operation of the given kind (counted
+// from the moment the deviation is installed) takes effect as usual and then returns Delay (virtual) late: the caller is
+// held at that very point while everything else goes on. Kinds: "client-write" (a write of the broker to any client
+// connection), "log-append" (an append to any node's message log), "rpc" (an inter-node call).
+type Deviation struct {
+	Kind  string        `json:"kind"`
+	Index int           `json:"index"`
+	Delay time.Duration `json:"delay_ns"`
+}
+
+// SetDeviation installs d (nil: none) and resets the operation counters.
+func (w *World) SetDeviation(d *Deviation) {
+	w.mu.Lock()
+	w.dev = d
+	w.devCount = map[string]int{}
+	w.devFired = false
+	w.mu.Unlock()
+}
+
+// DeviationFired reports whether the installed deviation's operation was reached.
+func (w *World) DeviationFired() bool {
+	w.mu.Lock()
+	defer w.mu.Unlock()
+	return w.devFired
+}
+
+// OpCount returns how many operations of a kind were seen since SetDeviation.
+func (w *World) OpCount(kind string) int {
+	w.mu.Lock()
+	defer w.mu.Unlock()
+	return w.devCount[kind]
+}
+
+func (w *World) deviationPoint(kind string) {
+	w.mu.Lock()
+	if w.devCount == nil {
+		w.devCount = map[string]int{}
+	}
+	w.devCount[kind]++
+	d := w.dev
+	hit := d != nil && d.Kind == kind && w.devCount[kind] == d.Index
+	if hit {
+		w.devFired = true
+	}
+	w.mu.Unlock()
+	if hit {
+		time.Sleep(d.Delay)
+	}
 }
 
 // seamState is the replicated state as the connection manager sees it: the real one, plus a seam after each of the
@@ -723,6 +797,17 @@ func (w *World) FullState(from, to int) {
 }
 
 // ---- faults ----
+
+// LoseNextResponse: the next call from `from` to `to` is carried out by the peer, but its answer is lost on the way back
+// (the caller sees the error gRPC reports for a connection that broke).
+func (w *World) LoseNextResponse(from, to int) {
+	w.mu.Lock()
+	if w.loseResponse == nil {
+		w.loseResponse = map[[2]uint64]bool{}
+	}
+	w.loseResponse[[2]uint64{uint64(from), uint64(to)}] = true
+	w.mu.Unlock()
+}
 
 func (w *World) SetUnreachable(from, to int, on bool) {
 	w.mu.Lock()
